@@ -628,6 +628,15 @@ Next == NextCore /\ UNCHANGED Cfg /\ hlog' = IF KeepLog /\ o'.nl # o.nl THEN App
 Spec == Init /\ [][Next]_vars
 
 \* ------------------------------------------------------------------------
+\* liveness: under fairness every behaviour of a bounded scenario reaches a state where nothing can move any more (no livelock
+\* of run loops, forwarding, re-queueing or zero-sleep polling); what is left blocked in that state is judged by TerminalOK.
+\* Strong fairness on everything but the zero-sleep poll itself: a polling handler lets the others run infinitely often.
+SpinStep == \E a \in 1..MaxAct : InlineSpin(a) \/ SpinWake(a)
+Progress == Next /\ ~SpinStep
+FairSpec == Spec /\ SF_vars(Progress) /\ WF_vars(SpinStep /\ UNCHANGED <<Cfg, hlog>>)
+Terminates == <>(~ENABLED Next)
+
+\* ------------------------------------------------------------------------
 \* properties: every witness of a falsified clause is explained by a recorded finding
 \* ------------------------------------------------------------------------
 Unexplained(S) == {w \in S : Classify(Cfg, o, w) = ""}
